@@ -248,6 +248,47 @@ def eval_refs(args):
     return dict(doc=doc, ver=ver, dangling=dangling, cases=n, bad=bad[:3])
 
 
+EXT_A = '''<xs:schema xmlns:xs="http://www.w3.org/2001/XMLSchema" targetNamespace="urn:a" xmlns:a="urn:a" elementFormDefault="qualified">
+ <xs:element name="root"><xs:complexType><xs:sequence><xs:element name="container" maxOccurs="unbounded"><xs:complexType><xs:sequence>
+   <xs:element ref="a:head" maxOccurs="unbounded"/></xs:sequence></xs:complexType></xs:element></xs:sequence></xs:complexType></xs:element>
+ <xs:element name="head" type="xs:decimal"/></xs:schema>'''
+EXT_B = '''<xs:schema xmlns:xs="http://www.w3.org/2001/XMLSchema" targetNamespace="urn:b" xmlns:a="urn:a" xmlns:b="urn:b" elementFormDefault="qualified">
+ <xs:import namespace="urn:a" schemaLocation="a.xsd"/><xs:element name="m" type="xs:int" substitutionGroup="a:head"/></xs:schema>'''
+
+
+def eval_extended(args):
+    """path lookups made BEFORE the schema is extended (another namespace imported and built, the maps cleared and rebuilt) do not bind later ones: after the extension a path
+    resolves to the declaration that governs the element in a whole-document run, and partial validation / decoding agree with it"""
+    ver, how = args
+    import xmlschema, tempfile, shutil, os
+    d = tempfile.mkdtemp(prefix='verif_c20_'); bad = []
+    try:
+        open(os.path.join(d, 'a.xsd'), 'w').write(EXT_A); open(os.path.join(d, 'b.xsd'), 'w').write(EXT_B)
+        s = _cls(ver)(os.path.join(d, 'a.xsd')); ns = {'a': 'urn:a', 'b': 'urn:b'}
+        first = s.find('/a:root/a:container', ns)
+        list(s.iter_errors('<a:root xmlns:a="urn:a"><a:container><a:head>1.5</a:head></a:container></a:root>', path='/a:root/a:container'))
+        if how == 'import': s.import_schema('urn:b', os.path.join(d, 'b.xsd'), build=True)
+        elif how == 'rebuild': s.maps.clear(); s.build()
+        else: s.add_schema(open(os.path.join(d, 'b.xsd')), namespace='urn:b', build=True)
+        doc = '<a:root xmlns:a="urn:a" xmlns:b="urn:b"><a:container><a:head>1.5</a:head>' + ('<b:m>x</b:m><b:m>7</b:m>' if how != 'rebuild' else '<a:head>x</a:head>') + '</a:container></a:root>'
+        governing = {}
+        def hook(e, x): governing[e.tag] = x; return False
+        full = [(e.path, e.reason[:50]) for e in s.iter_errors(doc, validation_hook=hook)]
+        for tag, path in (('{urn:a}container', '/a:root/a:container'), ('{urn:a}head', '/a:root/a:container/a:head')) + ((('{urn:b}m', '/a:root/a:container/b:m'),) if how != 'rebuild' else ()):
+            found = s.find(path, ns)
+            # (the path of a substitution member resolves to the particle of its head: the listed finding about find and substitutes - not judged here)
+            if tag != '{urn:b}m' and found is not governing.get(tag): bad.append(('find after the extension', path, repr(found), repr(governing.get(tag))))
+            want = sorted(r for p, r in full if p.startswith(path)); got = sorted(e.reason[:50] for e in s.iter_errors(doc, path=path, namespaces=ns))
+            if got != want: bad.append(('partial errors after the extension', path, got, want))
+        if how != 'rebuild':
+            dd = s.decode(doc, path='/a:root/a:container/b:m', namespaces=ns, validation='lax')[0]
+            dd = [x.get('$') if isinstance(x, dict) else x for x in dd] if isinstance(dd, list) else dd      # (a selected element is reported with the declarations in scope)
+            if dd != [None, 7]: bad.append(('partial data after the extension', '/a:root/a:container/b:m', repr(dd), '[None, 7]'))
+    except Exception as e: bad.append(('exception', f'{type(e).__name__}: {e}'))
+    finally: shutil.rmtree(d, ignore_errors=True)
+    return dict(ver=ver, how=how, bad=bad[:3])
+
+
 def run(tier, seed, open_findings):
     rng = random.Random(seed); n = 4000 if tier == 'thorough' else 60
     docs = [gen(rng) for _ in range(n)]
@@ -277,11 +318,16 @@ def run(tier, seed, open_findings):
     refs = result('C20.references_across_parts', f'{len(rjobs)} generated documents with xs:ID / xs:IDREF across chapters (half of them with dangling references) x every element path (errors, lax decode) and max_depth 1-3',
                   sum(r['cases'] for r in rres), [dict(case=dict(refs=True, doc=r['doc'], ver=r['ver'], dangling=r['dangling']), observed=list(b), required='the errors of the part in the whole document') for r in rres for b in r['bad']],
                   samples=[dict(doc=rjobs[0][1][:200])])
-    return [refs, result('C20.paths_and_partial_validation', f'{len(docs)} generated documents x every element x (find, positional partial errors, max_depth 1-2) x 2 classes', cases, fails, known=kn,
+    eres = [eval_extended((ver, how)) for ver in ('1.0', '1.1') for how in ('import', 'rebuild', 'add')]
+    ext = result('C20.paths_after_the_schema_is_extended', '2 classes x (import_schema of a namespace that adds a substitution member, clear + build, add_schema) after a first path lookup: find = governing declaration, partial errors and data = those of the whole document',
+                 len(eres) * 3, [dict(case=dict(extended=True, ver=r['ver'], how=r['how']), observed=list(b), required='paths resolve on the current components') for r in eres for b in r['bad']], exhaustive=True)
+    return [ext, refs, result('C20.paths_and_partial_validation', f'{len(docs)} generated documents x every element x (find, positional partial errors, max_depth 1-2) x 2 classes', cases, fails, known=kn,
                    samples=[dict(doc=docs[0][:160])], distinct=cases)]
 
 
 def replay(check_name, case):
+    if case.get('extended'):
+        r = eval_extended((case['ver'], case['how'])); return dict(ok=not r['bad'], observed=r['bad'], required='paths resolve on the current components')
     if case.get('refs'):
         r = eval_refs((case['ver'], case['doc'], case['dangling'])); return dict(ok=not r['bad'], observed=r['bad'], required='the errors of the part in the whole document')
     if case.get('nons'):
